@@ -42,6 +42,11 @@ FLOORS = {"C12.R1": 2, "C12.R2": 1, "C12.R3": 1, "C12.R4": 6, "C12.R5": 5}
 FALSY_LEGIT = {"charge": "0 is a legitimate total charge"}
 FALSY_EXEMPT = {"mult": "0 is not a multiplicity", "dist": "0 is not a bond length", "name": "an empty name is not a name"}
 
+# one named function each, with the reason: memoisation whose content cannot depend on the call history
+BENIGN_STATE = {
+    "molli/data/__init__.py:_get_dataset_cached": "memo of the static package data files keyed by (category, dataset); the cached value is a pure function of files shipped with molli",
+}
+
 _EFFECTS_CACHE = {}
 
 
@@ -104,6 +109,9 @@ def r2_no_hidden_state(chk, root, eff, rule):
         if k in eff.nondet:
             hits.append((k, path, "reads " + ", ".join(sorted(set(eff.nondet[k])))))
         if k in eff.gstate:
+            if eff.funcs[k].key in BENIGN_STATE:
+                chk.note(f"{eff.funcs[k].key} keeps module-level state - excepted: {BENIGN_STATE[eff.funcs[k].key]}")
+                continue
             hits.append((k, path, "changes " + ", ".join(sorted(set(eff.gstate[k])))))
     key = f"{root.key}:no-hidden-state-reachable"
     if hits:
